@@ -1,0 +1,88 @@
+/*
+ * Observation and fault-point hooks for deterministic simulation.
+ *
+ * Everything in this header is inactive unless the library is compiled with
+ * -DOPENSMT_VERIF_SIM.  With the define, every hook is a null function pointer
+ * by default, so behaviour only changes once a simulator installs a sink.
+ *
+ * A hook either passes values the solver has already computed to an observer,
+ * or lets the simulator choose between two behaviours the code already has at
+ * that point.
+ */
+
+#ifndef OPENSMT_VERIFSIM_H
+#define OPENSMT_VERIFSIM_H
+
+#ifdef OPENSMT_VERIF_SIM
+
+namespace opensmt::verifsim {
+
+enum ClauseKind : int {
+    CK_ORIG = 0,          // clause entering CoreSMTSolver::addOriginalClause_
+    CK_LEARNT = 1,        // result of CoreSMTSolver::analyze
+    CK_FINAL = 2,         // result of CoreSMTSolver::analyzeFinal
+    CK_TCONFLICT = 3,     // THandler::getConflict
+    CK_TREASON = 4,       // THandler::getReason
+    CK_TSPLIT = 5,        // THandler::getNewSplits
+    CK_TROOTDED = 6,      // theory deduction enqueued at decision level 0
+    CK_SPLITUNIT = 7,     // unit implied by a new split clause at decision level 0
+    CK_STRENGTHENED = 8,  // SimpSMTSolver::strengthenClause result
+    CK_ELIM_BEGIN = 9,    // SimpSMTSolver::eliminateVar starts producing resolvents
+    CK_ELIM_END = 10
+};
+
+enum FrameKind : int {
+    FK_SIMPLIFY_BEGIN = 0, // MainSolver::simplifyFormulas entered
+    FK_ASSERTED = 1,       // a formula of a frame about to be (re)processed
+    FK_ROOT = 2,           // a root handed to MainSolver::giveToSolver
+    FK_SIMPLIFY_END = 3
+};
+
+enum UnusualSite : int {
+    US_BLAND = 0, // Simplex::checkSimplex switches to Bland's rule now
+    US_CUT = 1    // LASolver::shouldTryCutFromProof
+};
+
+struct Hooks {
+    // lits: pointer to n Lit values; thandler: THandler of the emitting SAT engine
+    void (*clause)(void const * thandler, int kind, void const * lits, int n) = nullptr;
+    // frame: frame index (FK_ASSERTED) or frame id (FK_ROOT); term: PTRef::x
+    void (*frame)(void const * mainSolver, int kind, unsigned frame, unsigned term) = nullptr;
+    // expl: vec<PtAsgn> const *; coeffs: std::vector<Real> const *; logic: ArithLogic const *
+    void (*laConflict)(void const * logic, void const * expl, void const * coeffs) = nullptr;
+    // returns -1 for "behave as usual", 0 / 1 to force the choice at this site
+    int (*unusual)(int site) = nullptr;
+};
+
+inline Hooks hooks;
+
+inline int unusual(int site) {
+    return hooks.unusual ? hooks.unusual(site) : -1;
+}
+
+} // namespace opensmt::verifsim
+
+#define OSMT_SIM_CLAUSE(th, kind, ptr, n)                                                                              \
+    do {                                                                                                               \
+        if (opensmt::verifsim::hooks.clause) opensmt::verifsim::hooks.clause((th), (kind), (ptr), (n));               \
+    } while (0)
+#define OSMT_SIM_FRAME(ms, kind, frame, term)                                                                          \
+    do {                                                                                                               \
+        if (opensmt::verifsim::hooks.frame) opensmt::verifsim::hooks.frame((ms), (kind), (frame), (term));            \
+    } while (0)
+#define OSMT_SIM_LACONFLICT(logic, expl, coeffs)                                                                       \
+    do {                                                                                                               \
+        if (opensmt::verifsim::hooks.laConflict) opensmt::verifsim::hooks.laConflict((logic), (expl), (coeffs));      \
+    } while (0)
+#define OSMT_SIM_UNUSUAL(site) (opensmt::verifsim::unusual(site))
+
+#else
+
+#define OSMT_SIM_CLAUSE(th, kind, ptr, n) ((void)0)
+#define OSMT_SIM_FRAME(ms, kind, frame, term) ((void)0)
+#define OSMT_SIM_LACONFLICT(logic, expl, coeffs) ((void)0)
+#define OSMT_SIM_UNUSUAL(site) (-1)
+
+#endif // OPENSMT_VERIF_SIM
+
+#endif // OPENSMT_VERIFSIM_H
